@@ -110,7 +110,11 @@ PROPS = {
                       "deadlocks (C07_no_deadlock), every trace is bounded (C07_terminates_all), a quiescent configuration is final (C07_completes); "
                       "fewer than MaximumTaskCall activations of a task pass the counter, the others return 204, and so does a reference whose wait "
                       "would close a cycle through a run: once / when_changed task (C07_cycle_error, C07_cycle_error_dedup; 201 wrapping through task: "
-                      "calls). The hang of the rule before the fix is kept as a fact about that rule only (C07_old_rule_deadlock). Tie: event log of the "
+                      "calls). The call limit counts references, not depth: an ACYCLIC program that refers to one task 1000 times ends with 204 — the model "
+                      "mirrors the code, the full statement is refuted (C07_acyclic_no_204_counterexample), what holds is C07_no_204_if_refs_lt_max, the "
+                      "monitor callLimitMon (verdict C07a) prints the open finding C07-call-limit-hits-acyclic-graphs on the many-refs stream. A returned "
+                      "activation that passed its guards and recorded no failure has done all its work (C07_all_work_done). "
+                      "The hang of the rule before the fix is kept as a fact about that rule only (C07_old_rule_deadlock). Tie: event log of the "
                       "real executor replayed through the same `replay` (a log that ends without a result is never accepted), boundOk evaluated on the "
                       "raw log; the placement of the wait-for bookkeeping and of the waitCycle hook inside the dedup critical section, and the context "
                       "of deferred commands, pinned by SchedTie; a stream of reference cycles through deduplicated tasks (ring, several top-level calls "
@@ -124,9 +128,11 @@ PROPS = {
         "domains": [{"name": "sched"}],
         "trusted": ["the verif-tagged event-log hooks in /repo (verifhook.Ev calls in task.go); guard outcomes of the generated Taskfile are what the "
                     "generator says (a wrong rendering shows up as a rejected trace)"],
-        "assumptions": ["guard outcomes are data of the abstract program (platform, requires, enum, precondition, prompt)"],
-        "level_text": "Theorems over every step and every accepted trace, all flags incl. --force/--force-all/--yes: platform/requires/enum decided at "
-                      "enter (ok/206/207, no slot, no command, not counted as a call); failed precondition => only precondFail (generic) or ctxErr; prompt "
+        "assumptions": ["guard outcomes are data of the abstract program (platform, requires, compiles, enum, precondition, prompt)"],
+        "level_text": "Theorems over every step and every accepted trace, all flags incl. --force/--force-all/--yes: platform/requires/compilation/enum decided at "
+                      "enter in that order — the order RunTask asks them, pinned by SchedTie.runTask_skeleton — the first failing guard alone deciding "
+                      "(ok/206/plain error/207, no slot, no command, not counted as a call: C13_early_classes, C13_guard_order); a task excluded by platforms: "
+                      "is skipped with success whatever its other guards would say (C13_platform_skip_first); failed precondition => only precondFail (generic) or ctxErr; prompt "
                       "without --yes => guardsPassed rejected, 205; an activation of a guarded task never starts a command (C13_no_cmd: guardedNoCmd, "
                       "noCmdMon); a failed precondition gives an error result (C13_precond_fails, waiters excepted); 202 for internal tasks before any event; "
                       "errors propagate through deps and task: calls (201 wrapping for direct callers). Codes tied to Gen.Codes. Tie: event log replay + "
@@ -144,7 +150,9 @@ PROPS = {
         "level_text": "Theorems over every trace the executor LTS accepts (all programs, flags, failing positions, interleavings, cancellations): deferred "
                       "entries start in strictly decreasing index order (reverse registration order, none twice); when an activation has finished its "
                       "deferred part it has run exactly the registered entries reversed; deferred results never change the task's result or EXIT_CODE; "
-                      "EXIT_CODE seen = status of the failing command. Tie: the event log of the real executor (verif hooks) for generated task graphs "
+                      "EXIT_CODE seen = status of the failing command — by deferred commands and, through `vars: {V: '{{.EXIT_CODE}}'}`, by the callees of deferred "
+                      "task: entries (C14_deferred_call_sees_exit_code; value monitor, verdict C02v); what ran is the list of defer: entries of the PROGRAM below "
+                      "the point the body reached, reversed — all of them when the body ran to its end (C14_regs_are_program, C14_all_run_complete). Tie: the event log of the real executor (verif hooks) for generated task graphs "
                       "is replayed through the same `replay`; every log must be accepted and pass the same monitors.",
         "level_note": "Trusted: Lean kernel; hook placement; harness rendering of abstract programs; schedule coverage is whatever seeded jitter reaches "
                       "(the theorem, not the sampling, covers all interleavings of the model).",
@@ -185,48 +193,65 @@ PROPS = {
         "lean": "Props.C20",
         "domains": [{"name": "remote", "timeout": 3000}],
         "cli": True,
-        "trusted": ["the harness's loopback HTTP server (per-URL behaviour), pseudo-terminal (typed-ahead answer; for chains a responder that "
-                    "answers each prompt by the URL it names) and cache-file normalisation (harness/remote.go); "
+        "trusted": ["the harness's loopback servers (plain http and TLS with a certificate generated per run and handed to the binary as "
+                    "SSL_CERT_FILE; per-URL behaviour; a listener that never answers for the git node), pseudo-terminal (typed-ahead "
+                    "answer; for chains and trees a responder that answers each prompt by the URL it names), cache-file normalisation "
+                    "and the simulated damage / torn states (files written directly; the failure of the last cache write is REAL: the "
+                    "binary runs under a 512-byte file-size limit) (harness/remote.go); "
                     "SHA-256 collision resistance turns 'approved checksum' into 'approved content' (sha is uninterpreted in the model); "
                     "net/http fails a request at once when its context's deadline has passed (Chain.net2: observed on every chain case "
-                    "in which node 1 stalls, not derived); "
+                    "in which node 1 stalls, not derived) and applies the client's CheckRedirect to every hop (observed on the TLS URL); "
                     "cache keys are injective in the URL up to SHA-256 collisions (Tie.remote_cacheKey_ok pins that the whole location "
                     "string is hashed; the model indexes cache entries by abstract URL ids); "
-                    "the TLS handshake, redirects and git nodes are not exercised"],
-        "assumptions": ["per invocation a chain of at most two remote Taskfiles: node 1 (root entrypoint or the single remote include of a local root) "
-                        "and, if node 1's content includes one remote Taskfile, that one (node 2, whose own content includes nothing remote); "
-                        "http(s) nodes only; sibling remote includes (read concurrently) and deeper chains are not modelled",
-                        "shared deadline: only a fetch that stalls past --timeout uses up the invocation's time budget; cache reads, refused "
-                        "connections, HTTP errors, downloads and (typed-ahead / immediately answered) prompts take no time, and a 'patient' "
-                        "--timeout (10s) exceeds the summed delays of the slow servers of one invocation",
-                        "no crash between the three cache writes, cache files changed by Task only (plus ageing of timestamps by the harness)",
+                    "git nodes are exercised only against a server that never answers (no git server offline): their cache, prompt and "
+                    "content path is the shared readRemoteNodeContent (Tie.remote_readNodeContent_ok), their clone itself is go-git's"],
+        "assumptions": ["per invocation a tree of remote Taskfiles in which no URL is reached along two paths (a diamond is read once by the "
+                        "code and once per path by the model); the chain theorems are for chains of two, the tree theorems (trust, frame, "
+                        "all-or-nothing) for any depth and any number of sibling includes; http(s) nodes (git: see trusted)",
+                        "shared deadline: only a fetch that stalls past --timeout uses up the invocation's time budget, and only for the "
+                        "nodes below it (siblings are read concurrently); cache reads, refused connections, HTTP errors, downloads and "
+                        "(typed-ahead / immediately answered) prompts take no time, and a 'patient' --timeout (10s) exceeds the summed "
+                        "delays of the slow servers of one invocation",
+                        "the checksum file is written by Task only (the .yaml may be replaced, truncated or removed by anything, an "
+                        "invocation may be killed between any two of its cache writes: both are events of the histories the theorems "
+                        "quantify over)",
                         "the wall clock is monotone and an invocation takes less than the 1h expiry used"],
-        "level_text": "Theorems (all histories of invocations x server states x answers, any checksum function): content is handed on for "
-                      "execution only with the approved checksum; the approved checksum changes only under --yes or an accepted prompt in "
-                      "the same invocation; unapproved new/changed content = 104, nothing run, cache untouched; http without --insecure = 105 "
-                      "before any cache or network access; --offline and any failed fetch (refused, HTTP error, timeout) run the approved "
-                      "cached copy (repaired rule, fix F16; the rule as written is shown not to). The same lifted to CHAINS (Remote.Chain: "
-                      "remote A includes remote B, each with its own cache entry, trust state, server behaviour and prompt answer, both read "
-                      "by the per-node readRemote under the ONE --timeout deadline of the invocation; any `inc`, any `sha`, all chain "
-                      "histories): C20_chain_trust (content of either node runs only with the checksum approved for its URL; cache files of "
-                      "either node are written only after trust - chain_write_spec; unapproved content of node 2 = 104 and node 1's content "
-                      "does not run either), C20_chain_offline / _offline_no_network (outcome independent of both servers and answers), "
-                      "C20_chain_available / _available_node2 / _deadline (a node with a cached copy yields it whenever its fetch fails for "
-                      "any network reason, INCLUDING a shared deadline already used up by node 1's stalled fetch - whatever node 2's server "
-                      "would have done), C20_chain_extends (no include = the single-node model). Tie: regenerated control skeletons of "
-                      "readRemoteNodeContent and 11 neighbouring functions must equal the ones the model mirrors, plus cacheBeforeCtx (the "
-                      "cache is read and returned before ctx is first looked at), ctxFlow (the context given to Reader.Read is handed down "
-                      "unchanged to every node read) and ctxMakers (the only deadline is made in readTaskfile), and cacheKey / httpLocation / cacheFilePath / checksumFn / "
-                      "httpResolveEntrypoint (the cache files of an http node are named by the SHA-256 of the WHOLE URL string - scheme, "
-                      "host, path, query, as given - so the model's per-URL entries are the code's); local variables in all these facts are "
-                      "scope-resolved placeholders (renames do not change them). The harness uses, besides two paths and an https URL, URLs "
-                      "that differ from the first only in the query, in letter case, in a doubled slash (own content each, one cache "
-                      "directory per sequence; chains A->B with A, B differing only in the query), so a shared cache entry shows as foreign "
-                      "content, a false prompt or a missing entry; the real binary is run "
-                      "against a loopback server over generated sequences and must equal Remote.invoke / Chain.invokeChain step by step "
-                      "(exit code, versions of A and B run, cache files of every URL), with a direct trust monitor for both nodes.",
-        "level_note": "Trusted: Lean kernel; harness server/pty/normalisation; extractor. Not modelled: git nodes, TLS, redirects, crash between cache writes, "
-                      "sibling remote includes and chains deeper than two, time spent at a prompt counting against --timeout.",
+        "level_text": "Theorems (every state, hence all histories of invocations x server states x answers x crashes between the cache "
+                      "writes x damage to cached copies; any checksum function): content is handed on for execution only with the "
+                      "stored checksum - a cached copy is used only if its recomputed checksum is the stored one (usable; fix R8-3), so "
+                      "no invariant between the cache files is needed any more (C20_trust, TrustStep in every state) -, and the stored "
+                      "checksum was put there by an invocation, complete or killed, in which a prompt for exactly that checksum was "
+                      "accepted or passed by --yes (ApprovedNow, C20_sum_approved, end to end: C20_trust_history; the rule without the "
+                      "recheck: C20_trust_norecheck_counterexample; an invocation whose .yaml write fails IS crash+damage: stateL_expand, "
+                      "C20_trust_limited); unapproved new/changed content = 104, trace empty, cache untouched; "
+                      "plain http without --insecure = 105 before any cache or network access, and EVERY hop of a chain of redirects is "
+                      "https unless --insecure (C20_http_hops; a refused hop gives no content: C20_http_hop_refused; fix R8-1); "
+                      "--offline and any failed fetch (refused, HTTP error, refused redirect, timeout) run the usable cached copy "
+                      "(repaired rule F16; the rule as written is shown not to). CHAINS (Remote.Chain: remote A includes remote B, own "
+                      "cache entry, trust state, server and answer each, ONE --timeout deadline): C20_chain_trust, "
+                      "C20_chain_offline / _offline_no_network, C20_chain_available / _node2 / _deadline, C20_chain_extends - with the "
+                      "include resolved against the location STORED with A's copy (inc : Content -> Url -> Option Url, baseOf; fix R8-2): "
+                      "C20_chain_same_nodes (what ran online as A+B runs as the same A+B from the cache - offline or with both servers "
+                      "down -, also when A is a directory-style URL found under a default name and B a relative include). TREES "
+                      "(Remote.Tree: any number of sibling includes, any depth): C20_tree_trust (every node that ran has the checksum "
+                      "stored for its URL, approved before or by that node's own passed prompt), C20_tree_frame, "
+                      "C20_tree_error_runs_nothing (one failing node anywhere = nothing executed). Tie: regenerated control skeletons of "
+                      "readRemoteNodeContent and 20 neighbouring functions must equal the ones the model mirrors - incl. RemoteExists "
+                      "(default-name probe: only the status of a default name is looked at; ctx.Err() after every request, fix R8-6), "
+                      "HTTPNode.client (CheckRedirect), httpDoers / httpDefaultClientUses (every request of package taskfile goes through "
+                      "that client, nothing mentions http.DefaultClient), readContextUses (every node's ReadContext uses its context: "
+                      "the git node clones with CloneContext, fix R8-4), newGitNode (http AND git:// refused without --insecure, fix "
+                      "R8-5), the location writers/readers - plus cacheBeforeCtx, ctxFlow, ctxMakers, cacheKey / httpLocation / "
+                      "cacheFilePath / checksumFn / httpResolveEntrypoint; local variables in all these facts are scope-resolved "
+                      "placeholders. The harness runs the real binary against loopback servers (http, TLS, black hole) over generated "
+                      "sequences - ten URLs incl. query / case / slash variants, a TLS URL that redirects to http or https, a directory "
+                      "URL with three default names and its relative include, damaged and torn cache entries, chains, sibling includes "
+                      "and chains of three, a git node whose server never answers - and must equal Remote.invoke / Chain.invokeChain / "
+                      "Tree.invokeTree step by step (exit code, trace of versions run, cache files and stored location of every URL), with "
+                      "a direct trust monitor for every node.",
+        "level_note": "Trusted: Lean kernel; harness servers/pty/normalisation; extractor. Not modelled: the git clone itself, diamonds "
+                      "(a Taskfile included along two paths), time spent at a prompt counting against --timeout, caches written before "
+                      "the .location file existed when the GET (not the probe) fails.",
     },
     "C19": {
         "lean": "Props.C19",
@@ -246,9 +271,13 @@ PROPS = {
                       "single shellQuote'd value; splitVar splits at the first '=' only; args.Parse keeps order and last assignment; --init writes "
                       "at the path computed from the first positional argument and never over an existing entry. Tie: syntax.Quote, shell.Fields, "
                       "args.Parse/Get run in process against the model on generated byte strings (exact equality), and the real CLI end to end with "
-                      "an argv-recording helper for {{.CLI_ARGS}}, {{shellQuote .X}}, {{q .X}} and task --init on generated trees.",
+                      "an argv-recording helper for {{.CLI_ARGS}}, {{shellQuote .X}}, {{q .X}} — directly, through an included task, through a task: call "
+                      "handing the value on in vars:, through a global alias, and for non-string values — and task --init on generated trees, where the "
+                      "expected target is computed by the generator from the rule (directory -> dir/Taskfile.yml, .ext -> Taskfile.ext, file -> that file, "
+                      "never overwrite) and the model must agree with it.",
         "level_note": "Trusted: Lean kernel; harness canonicalisation; mvdan.cc/sh as the shell (oracle for `words`); unicode tables of the Go toolchain. "
-                      "Open finding: forwarded values that contain a template action are evaluated by the template engine (DESIGN §8 row 26).",
+                      "Open findings: forwarded values that contain a template action are evaluated by the template engine (DESIGN §8 row 26); the literal "
+                      "<no value> is deleted; a global variable defined from a forwarded value is empty (C19-forwarded-value-empty-in-global-alias).",
     },
     "C04": {
         "lean": "Props.C04",
@@ -258,7 +287,8 @@ PROPS = {
                     "harness checks that every stored checksum is xxh3 of the model's stream followed by xxh3 of the model's length table; what one glob "
                     "pattern matches (mvdan/sh expansion) is an oracle",
                     "the harness's copy of the goodRun monitor is tied to the Lean definition by comparing its verdict (g=) on every step"],
-        "assumptions": ["status: commands are `test -f`, commands only write their declared files and append to a trace; no deps, "
+        "assumptions": ["status: commands are `test -f`, commands only write their declared files and append to a trace; no deps "
+                        "(except the parent / failing-sibling pair that renders a run cancelled between check and first command), "
                         "no preconditions; sub-task calls only in the form `task: helper` where the helper has one `test -f` precondition and one command "
                         "(a call that fails before anything runs, also under --dry); sources readable; explicit whole-second mtimes; every sources pattern matches "
                         "below the task directory (no `..`), so the name hashed with a file (its path relative to t.Dir) is its root-relative "
@@ -268,7 +298,9 @@ PROPS = {
                       "distinct task names, which every Taskfile has - names that merely normalise alike have distinct state files, stateKey_inj; "
                       "tasks with equal labels, or a label equal to another task's name, have distinct checksum files, sumKey_inj: the file is a "
                       "function of the pair (task name, label) -, histories of any length made of "
-                      "successful runs, runs failing in the command loop, runs cancelled at the prompt, --dry, --status, --force, list/summary "
+                      "successful runs, runs failing in the command loop, runs cancelled at the prompt, runs cancelled by a failing sibling between the "
+                      "up-to-date check and the first command (Env.cancelled; C04_sibling_cancelled_no_entry), runs whose up-to-date check returns an error "
+                      "(an unexpandable generates entry: checkErr, C04_check_error_leaves_nothing, F8D), --dry, --status, --force, list/summary "
                       "queries and arbitrary file edits: skip implies goodRun), C04_partial_timestamp_general (the same histories for ANY "
                       "method-timestamp task, distinct task names, non-decreasing clock: skip implies goodRun or a generates file newer than the "
                       "marker vouched; C04_partial_timestamp: plain goodRun without positive generates pattern), C04_prompt_declined_no_entry / "
@@ -277,7 +309,10 @@ PROPS = {
                       "C04_timestamp_uptodate_check_pure / _checks_pure / _edit_after_checks_detected (a check ending in 'up to date' changes "
                       "nothing - no marker moved, none created -, so a source written after the last run is rebuilt however many checks lay in "
                       "between), "
-                      "C04_timestamp_skip_generates_exist, and decide-checked counterexamples to C04_full over the patched model (kill for both "
+                      "C04_timestamp_skip_generates_exist, C04_partial_src (the same conclusion in terms of the names and contents of the sources - ghost "
+                      "Attempt.src, goodRunSrc - under an explicit no-collision hypothesis; C04_constant_hash_vacuous shows why), C04_partial_queries (--status / --dry / --list --json verdicts are as sound as a run: the verdict is "
+                      "mode-independent), and decide-checked counterexamples to C04_full over the patched model (a second activation of the task in one "
+                      "invocation reported up to date while the first still runs: C04_counterexample_concurrent / C04_concurrent_root; kill for both "
                       "methods, method timestamp: never ran / failed run / generates "
                       "rewritten by others - one root: a generates file as new as the sources vouches on its own). Tie: Gen.DryWiring / "
                       "Gen.FingerOrder tables (incl. the definitions of the timestamp verdict variables, the touchMarker closure, "
@@ -300,7 +335,9 @@ PROPS = {
                         "(since TS2 touches the marker only when the timestamp check itself asks for the run) 'the status commands did not fail "
                         "before that run'"],
         "level_text": "Theorems: C05_globs (for every pattern list and file set: p ∈ Globs ⇔ the last pattern matching p is positive; result strictly "
-                      "sorted), C05_idem (both methods), C05_force, C05_missing_generates (both methods since TS1), C05_status_fails, C05_detect_full_inj (FULL "
+                      "sorted), C05_idem (both methods; also for a run whose only failures were swallowed by ignore_error: C05_ignored_failure_ok, F8C), "
+                      "C05_idem_checksum_after_force (a forced run records the fingerprint like any other, F8F), C05_match_independent (whether a path is a source does not depend on other files: a field of a pattern that cannot be stat'ed is "
+                      "skipped, F8E), C05_force, C05_missing_generates (both methods since TS1), C05_status_fails, C05_detect_full_inj (FULL "
                       "detection since fix F8B: the byte stream - names and contents back to back - together with the length table - the length of every "
                       "name and content, 8 bytes each, fed to a second hash - is an injective encoding of the list of (name, content), stream_lenTable_inj; "
                       "so for every project with injective names, i.e. every project since F8, different lists of (path, content) of the matched files give "
@@ -315,7 +352,9 @@ PROPS = {
                       "hasher, in which order); CLI histories with file operations between runs, incl. a directed stream of boundary-shift pairs (a rename "
                       "plus an edit that moves bytes between a name and the neighbouring content); the monitor 'skipped although the commands were never "
                       "attempted on the present list of (path, content)' on the real observations.",
-        "level_note": "Trusted: Lean kernel; harness; glob expansion oracle; hashes uninterpreted (FpInj explicit).",
+        "level_note": "Trusted: Lean kernel; harness; glob expansion oracle; hashes uninterpreted (FpInj explicit). Open finding: method timestamp "
+                      "notices only a source newer than the newest generates file / marker (C05_detect_timestamp_partial); removal, rename, addition with "
+                      "an old mtime and edit with restored mtime go unnoticed (C05_timestamp_*_undetected, C05-timestamp-misses-non-mtime-changes).",
     },
     "C12": {
         "lean": "Props.C12",
@@ -354,10 +393,14 @@ def _sched(pid, text):
 _sched("C01", "Theorems over every accepted trace of the executor LTS (all programs, flags, interleavings): when a command of an activation starts, every "
               "dependency activation has entered, exited and returned ok (C01_deps_done_ok, C01_cmd_start); a dependency served by a dedup waiter "
               "returned only after the one registered execution finished, with that execution's result (C01_shared, C01_shared_dep); the raw monitors "
-              "wakeAfterDone / depsExitedBefore hold on every accepted trace.")
+              "wakeAfterDone / depsExitedBefore hold on every accepted trace. The log's dedup keys are numbered per (task, hash): an execution is shared "
+              "by references of one task only, so a dependency 'served' by the execution of a different task is a rejected log.")
 _sched("C06", "Theorems over every accepted trace: a dedup key is registered at most once and held by exactly one activation; only the registering "
               "activation runs a body, every other activation meeting the key becomes a waiter that never starts a command and returns the execution's "
-              "outcome after it finished; run: always never dedups. Key half (Props.C06Key): with a hash that reaches every part of the compiled task two "
+              "outcome after it finished; which key a reference gets — one per run: once task, one per (when_changed task, value), never shared by two tasks — "
+              "is the monitor keyMon evaluated on every log (verdict C06k; C06_key_discipline, C06_key_owner: the acceptor alone accepts fresh keys); beyond "
+              "the call limit the 1000th reference of a run: once task fails instead of waiting (open finding C06-call-limit-hits-many-references); also when that one execution was cut short by a cancellation local to the caller that started it (stream "
+              "cut-short); run: always never dedups. Key half (Props.C06Key): with a hash that reaches every part of the compiled task two "
               "references of a when_changed task get the same key iff they are called with the same set of variable values, so for every arrival order "
               "the executions are exactly one per distinct set (whenChanged_exact, _order_indep); once executes the first reference only, always every "
               "reference; that the code's hash reaches the resolved variables, command texts, env: and the vars: of sub-calls and dependencies is the "
@@ -375,40 +418,62 @@ PROPS["C06"]["level_text"] += (" Second tie (domain wc): generated Taskfiles ref
 
 
 PROPS["C10"] = {
-    "lean": "Props.C10", "domains": [{"name": "vars", "env": {"VERIF_VARS_ENVDEP": "0"}}],
-    "trusted": ["the shell is an input of the model (theorems hold for every shell); the harness reads the abstract definition layers back from what Task "
-                "loaded (Compiler.TaskfileEnv/TaskfileVars, Task.IncludeVars/IncludedTaskfileVars/Vars) and parses only the template forms its generator emits"],
-    "assumptions": ["templates are concatenations of text and {{.NAME}} references; values are strings; env-precedence experiment off in the harness process "
-                    "(its guard is pinned by Gen.VarLayers)"],
-    "level_text": "Theorems for every set of definitions at every site, every value kind and every shell: the last definition in processing order wins and is "
-                  "evaluated over exactly what was resolved before it (C10_last_wins), undefined names keep the process-environment value, later sites cannot "
-                  "be influenced by earlier ones except through references; command environment: task env > task dotenv (first file wins) > global env, "
-                  "process environment wins unless the experiment. Tie: Gen.VarLayers (loop order of getVariables, task-dir resolution point, env merges, "
-                  "GetFromVars guard) proved equal to the documented order; the real CompiledTask on generated definition-site lattices must equal the model.",
-    "level_note": "Trusted: Lean kernel; extractor; harness abstraction of loaded variables; go-task/template for the restricted template forms.",
+    "lean": "Props.C10", "domains": [{"name": "vars", "env": {"VERIF_VARS_ENVDEP": "0"}}, {"name": "varscli"}], "cli": True,
+    "trusted": ["the shell is an input of the model (theorems hold for every shell); the harness hands the model the Taskfiles AS IT WROTE THEM (root / included / "
+                "nested file vars, include statements' vars, call and task vars, names, raw dirs, file locations) — the merges of Taskfile.Merge, the read-time "
+                "templating of include vars, the special variables, MATCH and the POST layer are definitions of the model (Vars.Compile), not harness input; it "
+                "emits only the template forms its generator knows; fingerprint values are canonicalised to LIVE (who wins is compared, not the hash)"],
+    "assumptions": ["templates are concatenations of text and {{.NAME}} references; values are strings (an env entry given by a ref: that resolves to nothing is outside "
+                    "the modelled domain); one include chain (sibling includes are the Load domain's); dir: templates without .ROOT_DIR/.TASKFILE_DIR/.USER_WORKING_DIR; "
+                    "the env-precedence experiment is exercised through the CLI binary (TASK_X_ENV_PRECEDENCE=1), its guard is pinned by Gen.VarLayers"],
+    "level_text": "Theorems for every set of definitions at every site, every value kind and every shell: the model's six sites are the code's six loops by name "
+                  "(docOrder_matches); the last definition of a name in processing order wins and is evaluated over exactly what the sites below it and the "
+                  "definitions before it resolved, in the directory of that site at that moment (C10_last_wins, no existential); special variables are a "
+                  "definition (special), available when no site defines them and overridden by any site (C10_special_available/_overridden) except for the POST "
+                  "layer CHECKSUM/TIMESTAMP (counterexample + partial: open finding); the global layer is the root file's vars with every included file's merged in "
+                  "(later wins, position kept) and the command-line layer appended: a root task sees an included file's value (C10_root_task_sees_included_global), a "
+                  "declared global sees a NAME=value assignment iff the name stands before it in the merged layer (C10_cli_ref_iff; CLI_* likewise: open finding); "
+                  "command environment over the real pipeline: task env > task dotenv (first file wins) > global env, each rendered over the task's final "
+                  "variables, process environment wins unless the experiment (C10_env_pipeline). Tie: Gen.VarLayers (loop order, task-dir closure, special-variable "
+                  "table, POST layer, MATCH, cmd/task's merge, env merges, GetFromVars guard); the real CompiledTask / the real CLI on generated definition-site "
+                  "lattices must equal the model computed from the files as written.",
+    "level_note": "Trusted: Lean kernel; extractor; harness rendering of the Taskfiles it describes to the model; go-task/template for the restricted template forms. "
+                  "Open: C10-cli-specials-defined-after-globals, C10-fingerprint-vars-override-user-definition.",
 }
 PROPS["C11"] = {
-    "lean": "Props.C11", "domains": [{"name": "vars"}],
-    "trusted": PROPS["C10"]["trusted"],
-    "assumptions": PROPS["C10"]["assumptions"] + ["C11 is proved under EnvIndep (an sh: command's output depends on its text and directory only); without it the "
-                                                   "statement is false (machine-checked counterexample; open finding C11-dynamic-cache-ignores-env)"],
+    "lean": "Props.C11", "domains": [{"name": "vars", "env": {"VERIF_VARS_POSTMON": "0"}}],
+    "trusted": PROPS["C10"]["trusted"] + ["the file-system stream tracks the world itself (which file holds what when a call starts, what the first read of a "
+                                          "(directory, command) pair was) to evaluate the property's monitor"],
+    "assumptions": PROPS["C10"]["assumptions"] + ["C11 is proved under EnvIndep (an sh: command's output depends on its text and directory only) and, over the file "
+                                                   "system, for histories whose command effects are invisible to the sh: commands; without these the statement is false "
+                                                   "(machine-checked counterexamples; open findings C11-dynamic-cache-ignores-env, C11-dynamic-cache-ignores-files)"],
     "level_text": "Theorem (induction over arbitrary histories of compilations): for every cache reachable by compiling any sequence of other tasks, a task "
                   "resolves to the same variables as with an empty cache, provided sh: output depends on command text and directory only; the cache stays "
-                  "coherent. Counterexample to the unrestricted statement checked by `decide`. Tie: Gen.VarLayers pins the cache key (dir + command) and its "
-                  "lock; the harness compiles random call sequences in ONE executor and compares every compile with the model on an EMPTY cache.",
+                  "coherent. Over a world state (Vars.World: the oracle gets the file system, commands are functions on it, histories interleave compilations "
+                  "and command effects): C11_fs_full is refuted by `decide` (b reads what a cached before a's command rewrote the file), C11_fs_partial holds "
+                  "for effects no sh: command can see. Directory clause: an sh: variable of the task runs in the task's directory as resolved over the "
+                  "variables known when it is reached (fix V8-3); it is the compiled Dir whenever nothing from that point on defines a name the dir: refers "
+                  "to (C11_dir_clause_partial; the full clause is circular: counterexample). Tie: Gen.VarLayers pins the cache key (dir + command), its lock and "
+                  "the per-variable directory closure; the harness compiles random call sequences in ONE executor and compares every compile with the model on an "
+                  "EMPTY cache, and runs sequences of tasks whose commands rewrite files later sh: variables read.",
     "level_note": "Trusted: as C10. The concurrent case (two compilations racing on shared definitions) is C18's.",
 }
 _sched("C02", "Theorems over every accepted trace: the non-deferred entries of one execution start one at a time, in strictly increasing index order, "
               "each closed before the next (seqMon, C02_seq); a `task:` entry returns only after the callee, all its descendants at any depth and all "
-              "its deferred entries have finished (C02_call_sync, C02_descendants_done); a woken dedup waiter implies the shared execution is over. "
+              "its deferred entries have finished (C02_call_sync, C02_descendants_done); a woken dedup waiter implies the shared execution is over; "
+              "the started entries are exactly the non-deferred entries of the command list below the loop position, all of them once the body ran to "
+              "its end (C02_no_entry_skipped, C02_body_complete); every command of a callee saw the value its reference passed (literal, a variable of "
+              "the referrer, the referrer's own value; Sched.Pass, valMon beside the acceptor's own step: verdict C02v, C02_callee_sees_passed). "
               "Loop order (list, row-major matrix) and call variables: Props.C02Vars over the Vars model, tied by domain `vars`.")
-PROPS["C02"]["domains"] = [{"name": "sched"}, {"name": "vars", "env": {"VERIF_VARS_ENVDEP": "0"}}]
+PROPS["C02"]["domains"] = [{"name": "sched"}, {"name": "vars", "env": {"VERIF_VARS_ENVDEP": "0", "VERIF_VARS_POSTMON": "0"}}, {"name": "callvals"}]
 PROPS["C02"]["lean"] = "Props.C02All"
 PROPS["C02"]["prop_modules"] = ["Props.C02", "Props.C02Vars"]
 _sched("C03", "Theorems over every accepted trace: after a command failure that is not ignored no later non-deferred entry of that activation starts "
               "(failStopMon); the failure propagates to callers (task: entries) and dependents (deps), which start nothing further; ignore_error is exact "
               "(command level: that shell command's exit status only; task level: exit statuses of its own entries only); exit codes from Gen.Codes: "
-              "201 / the command's status with --exit-code for own commands, callees and dependencies (one level + chain lemma). Status at full "
+              "201 / the command's status with --exit-code for own commands, callees and dependencies (one level + chain lemma). A task that does not "
+              "compile (template error in a task-level field; TaskDef.compileOk, program data like the guard outcomes) fails before any of its commands "
+              "and before it counts as a call or takes a slot (C03_compile_error_before_cmds). Status at full "
               "strength (C03_status_full, a theorem since the fix of C03-dedup-waiter-status): the execution of a task ends with the bare failure and "
               "a marker (Outcome); every activation that takes it - the executor and every dedup waiter - returns its own wrapping (wrapFor, "
               "OutInv_sound), so in every reachable configuration a top-level activation, executor or waiter, never returns a bare exit status nor a "
@@ -508,15 +573,31 @@ def _c19_no_value_deleted(m):
             and m["impl"].endswith(" novalue"))
 
 
+def _c02_call_values(m):
+    """C02-call-values-templated-again, one mechanism only: the monitor line of the callvals domain for a value that contains a template
+    action or the literal <no value>, and the callee holds exactly what one more pass of the real templater makes of it (or that pass
+    fails and so does the call) - tag set by the harness."""
+    return (m.get("domain") == "callvals" and m.get("case_line", "").startswith("vars.callmon ")
+            and m["impl"].endswith(" templated-again"))
+
+
+def _c19_alias_empty(m):
+    """C19-forwarded-value-empty-in-global-alias, one mechanism only: the `alias` path of the cliargs domain (the command uses a GLOBAL
+    variable defined as '{{.CLI_ARGS}}' / '{{.X}}') and the helper received nothing resp. two empty arguments (tag set by the harness)."""
+    c = m.get("case") or {}
+    return (m.get("domain") == "cliargs" and c.get("path") == "alias" and c.get("kind") in ("fwd", "var")
+            and m["impl"].endswith(" alias-empty"))
+
+
 def _c11_env_cache(m):
     """C11-dynamic-cache-ignores-env: the dynamic-variable cache is keyed by (dir, command text); a command that reads a
     variable from the environment it is handed is served from the entry another task created with a different value.
     Narrow: vars domain, not the first compile of the sequence (same or another task compiled earlier with other values), the
     case contains an env-reading command, and only names defined through such a command (or referring to one) differ."""
     c = m.get("case") or {}
-    if m.get("domain") != "vars" or c.get("kind") != "resolve" or c.get("only", 0) < 1 or not m["case_line"].startswith("vars.resolve"):
+    if m.get("domain") != "vars" or c.get("kind") != "resolve" or c.get("only", 0) < 1 or not m["case_line"].startswith("vars.compile"):
         return False
-    lists = [c.get("root_vars") or [], c.get("inc_vars") or [], c.get("sub_vars") or []]
+    lists = [c.get("root_vars") or [], c.get("inc_vars") or [], c.get("sub_vars") or [], c.get("deep_inc_vars") or [], c.get("leaf_vars") or []]
     for t in c.get("tasks") or []:
         lists.append(t.get("vars") or [])
     for cl in c.get("seq") or []:
@@ -537,16 +618,63 @@ def _c11_env_cache(m):
             for d in l:
                 if d["name"] not in tainted and any(("{{.%s}}" % t) in d["text"] or (d["kind"] in ("ref", "envsh") and d["text"] == t) for t in tainted):
                     tainted.add(d["name"]); changed = True
-    pool = ["VA", "VB", "VC", "VD", "VE", "VF", "VG", "TASK_DIR", "TASK"]  # = vPool of harness/vars.go (the answer has one value per name)
+    # the answer line: the values of VARS_QUERY (harness vQuery), then `dir=…`
     a, b = m["impl"].split(), m["model"].split()
-    if len(a) != len(b) or len(a) != len(pool):
+    if len(a) != len(b) or len(a) != len(VARS_QUERY) + 1:
         return False
-    return all(pool[i] in tainted for i in range(len(pool)) if a[i] != b[i])
+    return a[-1] == b[-1] and all(VARS_QUERY[i] in tainted for i in range(len(VARS_QUERY)) if a[i] != b[i])
+
+
+VARS_QUERY = ["VA", "VB", "VC", "VD", "VE", "VF", "VG", "TASK", "TASK_DIR", "ROOT_DIR", "ROOT_TASKFILE", "TASKFILE", "TASKFILE_DIR", "USER_WORKING_DIR",
+              "ALIAS", "MATCH", "CHECKSUM", "TIMESTAMP"]
+
+
+def _c11_fs_cache(m):
+    """C11-dynamic-cache-ignores-files, one mechanism only: the monitor line `vars.fsmon` of the file-system stream (a call must read
+    what it would read alone in the world as it is when it starts) and what it printed instead is exactly what the cache entry of
+    its (directory, command) holds from an earlier compilation (tag set by the harness, which tracks the world and the first reads)."""
+    return (m.get("domain") == "vars" and m.get("case_line", "").startswith("vars.fsmon ")
+            and m["impl"].endswith(" stale-cache"))
+
+
+def _c10_cli_specials(m):
+    """C10-cli-specials-defined-after-globals, one mechanism only: the monitor line of the CLI stream (`vars.climon`) for a declared
+    global / global env entry that refers to CLI_* names only, and the value printed is exactly the entry's text with those references
+    rendered empty (tag set by the harness)."""
+    return (m.get("domain") == "varscli" and m.get("case_line", "").startswith("vars.climon ")
+            and m["impl"].endswith(" cli-special-empty"))
+
+
+def _c10_post_layer(m):
+    """C10-fingerprint-vars-override-user-definition, one mechanism only: the monitor line `vars.postmon` of a task with sources whose
+    CHECKSUM / TIMESTAMP is defined (one literal) at a site the call sees, and the task got the live fingerprint value instead (tag set
+    by the harness)."""
+    return (m.get("domain") == "vars" and m.get("case_line", "").startswith("vars.postmon ")
+            and m["impl"].endswith(" post-layer-wins"))
+
+
+def _call_limit_acyclic(m):
+    """C07-call-limit-hits-acyclic-graphs / C06-call-limit-hits-many-references: the log is accepted, every other verdict agrees,
+    and the one difference is the call-limit monitor (Sched.callLimitMon: the program is acyclic AND an activation was born
+    with the call-limit error).  The monitor is the definition of the mechanism, so nothing else can be claimed through this."""
+    if m.get("domain") != "sched":
+        return False
+    a, b = m.get("impl", "").split(), m.get("model", "").split()
+    if not a or a[0] != "accept" or len(a) != len(b):
+        return False
+    return [(x, y) for x, y in zip(a, b) if x != y] == [("C07a=1", "C07a=0")]
 
 
 FINDING_PREDICATES = {
+    "C07-call-limit-hits-acyclic-graphs": _call_limit_acyclic,
+    "C06-call-limit-hits-many-references": _call_limit_acyclic,
+    "C02-call-values-templated-again": _c02_call_values,
+    "C10-cli-specials-defined-after-globals": _c10_cli_specials,
+    "C10-fingerprint-vars-override-user-definition": _c10_post_layer,
     "C11-dynamic-cache-ignores-env": _c11_env_cache,
+    "C11-dynamic-cache-ignores-files": _c11_fs_cache,
     "C19-cli-values-are-templated": _c19_values_templated,
+    "C19-forwarded-value-empty-in-global-alias": _c19_alias_empty,
     "C19-no-value-text-deleted": _c19_no_value_deleted,
 }
 
@@ -605,7 +733,8 @@ def _marker_vouches(f):
 def _c04(cond):
     def p(m):
         f = _mon(m, "c04")
-        return bool(f) and f.get("kind") == "skip-not-good" and cond(m, f)
+        # (a run that skips, or a query that says "up to date" — the verdict does not depend on the mode — although goodRun fails)
+        return bool(f) and f.get("kind") in ("skip-not-good", "status-not-good", "dry-skip-not-good", "list-not-good") and cond(m, f)
     return p
 
 
@@ -638,6 +767,9 @@ FINDING_PREDICATES.update({
     "C04-normalised-name-collision": _c04(_same_key),
     # (… or by a different checksum task with the same display name (label): FIXED by fix F8A, the checksum file is a function of
     # task name AND label; no predicate: such a skip is a violation again)
+    # "up to date" was said by a SECOND activation of the task while the first activation of the same invocation was still running
+    # its commands (twin=1): the fingerprint is recorded at check time — the root of the kill finding, reached without any kill
+    "C04-concurrent-activation-skipped": _c04(lambda m, f: f.get("twin") == "1" and f.get("kind") == "skip-not-good"),
     # method timestamp, last run fine, but a generates pattern matches nothing (FIXED by TS1)
     "C04-timestamp-missing-generates": _c04(lambda m, f: f.get("method") == "timestamp" and f.get("gens") == "0" and f.get("laexit") == "ok"),
     # method timestamp, the commands never ran: the generates' mtimes alone decided (no marker), or the marker a check created
@@ -658,12 +790,22 @@ FINDING_PREDICATES.update({
     "C12-dry-failed-call-removes-fingerprint": lambda m: (lambda f: bool(f) and f.get("kind") == "tree-changed" and f.get("mode") == "dry" and
                                                           f.get("exit") == "failed")(_mon(m, "c12")),
     "C05-dir-move-not-detected": _c05(lambda m, f: f.get("kind") == "change-not-detected" and f.get("samebases") == "1" and f.get("method") == "checksum"),
+    # method timestamp, skipped although the list of (path, content) of the sources differs from that of every attempt, and NO source
+    # is newer than the last attempt: a removal, a rename, an addition with an old mtime, an edit with a restored mtime — changes that
+    # leave no mtime trace, invisible to the method by design (srcnewer=1 — a source IS newer and the run was skipped — stays a violation)
+    "C05-timestamp-misses-non-mtime-changes": _c05(lambda m, f: f.get("kind") == "change-not-detected" and f.get("method") == "timestamp" and
+                                                   f.get("srcnewer") == "0" and f.get("op") in ("removal", "rename", "addition", "edit", "mixed")),
+    # (the run right after a successful --force run executed the commands again, `not-idempotent … first=force`: FIXED by F8F, the
+    # forced run records the fingerprint; no predicate: a violation again)
     # (FIXED by TS1)
     "C05-timestamp-missing-generates": _c05(lambda m, f: f.get("kind") == "missing-generates-skipped" and f.get("method") == "timestamp"),
 })
 
 # the sched domain serves seven properties: each compares acceptance + its own verdict(s)
-for _pid, _keys in {"C01": ["C01"], "C02": ["C02"], "C03": ["C03", "C03s"], "C06": ["C06"], "C07": ["C07"], "C13": ["C13"], "C14": ["C14"]}.items():
+# (C02v: the value monitor — callee sees what was passed, deferred call sees the exit code; C06k: the key discipline monitor;
+#  C07a: an acyclic program does not hit the call limit — open findings C07-call-limit-hits-acyclic-graphs / C06-…-many-references)
+for _pid, _keys in {"C01": ["C01"], "C02": ["C02", "C02v"], "C03": ["C03", "C03s"], "C06": ["C06", "C06k", "C07a"], "C07": ["C07", "C07a"], "C13": ["C13"],
+                    "C14": ["C14", "C02v"]}.items():
     for _d in PROPS[_pid]["domains"]:
         if _d["name"] == "sched":
             _d["verdict_keys"] = _keys
